@@ -13,8 +13,12 @@ const QuotasAvailable = false
 
 type runtimeContextManager struct {
 	messageHandler Callable
-	parent         *runtimeContextManager
-	weakRefPool    luagc.Pool
+
+	// The thread that installed messageHandler: the handler applies to errors
+	// raised in that thread only (a coroutine has its own protected calls).
+	messageHandlerThread *Thread
+	parent               *runtimeContextManager
+	weakRefPool          luagc.Pool
 }
 
 var _ RuntimeContext = (*runtimeContextManager)(nil)
